@@ -62,3 +62,12 @@ theorem splitFirst_not_mem {sep : Byte} {s : Str} (h : sep ∉ s) : splitFirst s
     exact absurd (by simp [h1]) h
 
 end Cdi
+
+namespace Cdi
+/-- A property of bytes holds for every byte if it holds for the 256 values
+(used with `decide +kernel`: the quantifier is a finite table). -/
+theorem byte_forall (P : Byte → Prop) (h : ∀ n : Fin 256, P (UInt8.ofNat n.val)) : ∀ c, P c := by
+  intro c
+  have := h ⟨c.toNat, c.toNat_lt⟩
+  simpa using this
+end Cdi
